@@ -1,10 +1,102 @@
 package main
 
-// Counterexample replay: a failed obligation with a `sat` answer has a model; where a replay template exists for
-// the function, the model's inputs are rebuilt as Go values and the real function is run (go test -overlay).
-// Without a template the model is attached to the replay file and the violation is reported with
-// no-failing-input-found.
+// Replay of a recorded violation (`./check <id> --replay <file>`).
+//
+// A replay file names the failed obligation and carries the clause, the path, the solvers' output and the path of the
+// complete SMT-LIB query. Replaying re-runs that query on all three solvers with the thorough budget and, when the
+// file carries a concrete failing input (`go_test`: an in-package test generated from a solver model), runs that
+// test against the real code in /repo through `go test -overlay` (nothing is written to /repo).
+//
+// Counterexample construction from models exists only for functions whose inputs are scalars, strings and flat
+// structs (see tryReplay); everything else is reported with no-failing-input-found.
+
+import (
+	"context"
+	"encoding/json"
+	"fmt"
+	"os"
+	"os/exec"
+	"path/filepath"
+	"strings"
+	"time"
+)
+
+func runReplay(repo, file string) int {
+	data, err := os.ReadFile(file)
+	if err != nil {
+		fmt.Println("replay:", err)
+		return 2
+	}
+	var r map[string]any
+	if err := json.Unmarshal(data, &r); err != nil {
+		fmt.Println("replay:", err)
+		return 2
+	}
+	fmt.Printf("property   %v\nobligation %v\nposition   %v\nclause     %v\nstatus     %v (%v)\npath       %v\n",
+		r["property"], r["obligation"], r["pos"], r["clause"], r["status"], r["solver"], r["trace"])
+	still := true
+	if q, _ := r["query"].(string); q != "" {
+		if _, err := os.Stat(q); err != nil {
+			// the query is stored next to the replay file
+			q = filepath.Join(filepath.Dir(file), filepath.Base(q))
+		}
+		if _, err := os.Stat(q); err == nil {
+			for _, c := range solverCfgs {
+				res := runSolver(context.Background(), c, q, 60*time.Second)
+				fmt.Printf("re-run     %-7s %s (%.1fs)\n", c.Name, res.status, res.secs)
+				if res.status == "unsat" {
+					still = false
+				}
+			}
+		} else {
+			fmt.Println("re-run     query file missing:", q)
+		}
+	}
+	if gt, ok := r["go_test"].(map[string]any); ok {
+		src, _ := gt["source"].(string)
+		pkg, _ := gt["package_dir"].(string)
+		name, _ := gt["test"].(string)
+		out, failed := runOverlayTest(repo, pkg, src, name)
+		fmt.Printf("real code  go test -run %s in %s: failed=%v\n%s\n", name, pkg, failed, out)
+		if failed {
+			return 1
+		}
+	}
+	if still {
+		fmt.Println("result     obligation still undischarged")
+		return 1
+	}
+	fmt.Println("result     obligation discharges on re-run (the earlier failure was a resource limit)")
+	return 0
+}
+
+// runOverlayTest injects src as <repo>/<pkg>/zz_govc_replay_test.go through an overlay and runs the named test.
+func runOverlayTest(repo, pkg, src, name string) (string, bool) {
+	dir, err := os.MkdirTemp("", "govc-replay")
+	if err != nil {
+		return err.Error(), false
+	}
+	defer os.RemoveAll(dir)
+	tf := filepath.Join(dir, "replay_test.go")
+	os.WriteFile(tf, []byte(src), 0o644)
+	ov := map[string]any{"Replace": map[string]string{filepath.Join(repo, pkg, "zz_govc_replay_test.go"): tf}}
+	ob, _ := json.Marshal(ov)
+	of := filepath.Join(dir, "overlay.json")
+	os.WriteFile(of, ob, 0o644)
+	ctx, cancel := context.WithTimeout(context.Background(), 180*time.Second)
+	defer cancel()
+	cmd := exec.CommandContext(ctx, "go", "test", "-overlay", of, "-vet=off", "-count=1", "-timeout", "60s", "-run", "^"+name+"$", "./"+pkg+"/")
+	cmd.Dir = repo
+	cmd.Env = append(os.Environ(), "GOFLAGS=-mod=mod", "GOPROXY=off", "GOSUMDB=off", "GOTOOLCHAIN=local")
+	out, err := cmd.CombinedOutput()
+	s := string(out)
+	if len(s) > 3000 {
+		s = s[len(s)-3000:]
+	}
+	failed := err != nil && (strings.Contains(s, "--- FAIL") || strings.Contains(s, "panic:"))
+	return s, failed
+}
 
 func tryReplay(p *Prog, o *Obligation, replayFile, repo string) (bool, any) {
-	return false, map[string]any{"attempted": false, "reason": "no replay template for this function; model attached as solver_output"}
+	return false, map[string]any{"attempted": false, "reason": "no replay template for this function; solver output and query attached"}
 }
